@@ -103,6 +103,12 @@ def run(ctx):
                     okr = F.is_wellformed(Yr, shp) and (order_ == 2 and max(tt_ranks_of(v2) + [1]) > 6 or np.abs(F.dense(Yr) - vref).max() <= 1e-7 * (1 + np.abs(vref).max()))
                     ctx.check(okr, 'anova:labels', 'ANOVA order %d changes when the index labels are %d*i+%d stored as %s (deviation %.3g)'
                               % (order_, mul_, add_, np.dtype(dt), np.abs(F.dense(Yr) - vref).max() if F.is_wellformed(Yr, shp) else -1), case=case)
+            # ---- the model is linear in the sample values: y times an exact power of two gives the tensor times that power
+            for sp in (-30, 40):
+                Ys_ = teneva.anova(I, y * 2.0 ** sp, r=3, order=1, noise=0., seed=5)
+                ctx.case(key=('scale', smp, sp), nontrivial=True)
+                ctx.check(F.is_wellformed(Ys_, shp) and np.abs(F.dense(Ys_) / 2.0 ** sp - v1).max() <= 1e-10 * (1 + np.abs(v1).max()), 'anova:scale',
+                          'order-1 ANOVA of the samples times 2^%d is not 2^%d times the order-1 tensor' % (sp, sp), case=case)
             # ---- one ANOVA object used repeatedly: every cores() request is answered from the fitted model alone
             if d >= 3:
                 first = F.dense(teneva.ANOVA(I, y, order=2, seed=1).cores(r=6, noise=0.))       # a fresh object's answer
